@@ -76,6 +76,8 @@ def rand_assignment(rng, params, n, required=()):
             cols[nm] = [v] * n
         else:
             vs = [rng.uniform(lo, hi) for _ in range(n)]
+            if rng.random() < 0.12:
+                vs = [vs[0]] * n
             passed[nm] = np.array(vs) if rng.random() < 0.7 else list(vs)
             cols[nm] = vs
             swept_any = True
@@ -235,6 +237,8 @@ def rand_solver_case(rng, nmax):
             vals = [Fraction(rng.randint(-8, 8), 8) for _ in range(n)]
             if rng.random() < 0.5:
                 vals[0] = Fraction(0)
+            if rng.random() < 0.15:
+                vals = [vals[0]] * n            # an array that happens to be constant is still a sweep of n points
             assign[nm] = ("lenN", vals)
             swept = True
         else:
@@ -264,7 +268,7 @@ def check_lengths(ctx, rng):
         # bare model
         m = L.TH_PhaseShifter(L=5.0, Neff=lambda wl, **k: 2.0, R=1.0, w=1.0, wl=1.5, pol=0)
         try:
-            r = m.solve(wl=np.linspace(1.5, 1.6, a), PS=np.linspace(0, 1, b))
+            r = m.solve(wl=np.linspace(1.5, 1.6, a), PS=(np.full(b, 0.5) if rng.random() < 0.4 else np.linspace(0, 1, b)))
             ok = True
         except Exception:
             ok = False
@@ -278,7 +282,8 @@ def check_lengths(ctx, rng):
             continue
         try:
             sol, _ = impl.build_param_solver(pcirc)
-            sol.solve(pa=np.linspace(0, 0.5, a), pb=np.linspace(0, 0.5, b))
+            const = rng.random() < 0.4
+            sol.solve(pa=(np.full(a, 0.25) if const else np.linspace(0, 0.5, a)), pb=np.linspace(0, 0.5, b))
             ok = True
         except ValueError:
             ok = False
